@@ -1574,7 +1574,7 @@ class C26(HistoryProfile):
         raise vio(sim, "rejection-left-trace", "; ".join(d[:3]))
       if model is not None:
         sim.count("probe.valid_bundle_rejected")
-        if "unknown temporary row id" in str(out.error):
+        if "unknown temporary row id" in str(out.error) and model == "all-temp-ids-known":
           # every negative id in this bundle was created by an earlier action of it (or by the
           # action itself): refusing it says that a temporary id did not stand for its row
           raise vio(sim, "known-temp-id-rejected", "%s raised %s" % (
@@ -1640,8 +1640,10 @@ class C26(HistoryProfile):
       for x in ids:
         if isinstance(x, int) and x < 0:
           known[a[1]].add(x)
-    if ret is None or unconstrained:
+    if unconstrained:
       return None
+    if ret is None:
+      return "all-temp-ids-known"     # (rejected: no ids to apply with, but pass 1 found no unknown id)
     # pass 2: apply with the ids the engine returned
     mapping = {"A": {}, "B": {}}
     def res(t, x):
